@@ -230,6 +230,10 @@ func specialisedRows(tier string, rng *rand.Rand) ([]*parseRow, map[string]inter
 		rows = append(rows, &parseRow{Src: "text", Want: wantFromText(text), text: text, name: fmt.Sprintf("di28#ids-moved-up-by-%d", off), freeSites: true})
 	}
 	rows = append(rows, positionRows(defs)...)
+	drows, rejected := distinctRows(defs)
+	rows = append(rows, drows...)
+	info["di_distinct_rows"] = len(drows)
+	info["di_distinct_rows_rejected_by_llvm"] = rejected
 	// hand-written texts with less usual field shapes (references through generic fields,
 	// self-referencing composite, inline specialised nodes inside fields, nested inline tuples)
 	for _, e := range extraTexts {
@@ -515,6 +519,81 @@ func positionRows(defs []diDef) []*parseRow {
 		rows = append(rows, &parseRow{Src: "text", Want: w, text: text, name: k + "@every-position#"})
 	}
 	return rows
+}
+
+// distinctRows: the `distinct` dimension of the numbered definitions. For every node kind K (the 28
+// specialised kinds and plain tuples) the base module with every numbered definition of kind K written
+// `distinct` (K@distinct) and with none of them distinct (K@uniqued), plus the module with every definition
+// distinct and with none. What the property requires (the flag of each definition, law `distinct` of
+// MetadataTrace.tla, on the parsed module and on the re-parsed print) is read off the text. LLVM decides
+// which of these texts are valid (a compile unit must be distinct, ...): a rejected text is not a row;
+// the names of the rejected ones are reported in the evidence.
+func distinctRows(defs []diDef) (rows []*parseRow, rejected []string) {
+	var kinds []string
+	seen := map[string]bool{}
+	kindOf := func(d diDef) string {
+		if d.Kind == "" {
+			return "Tuple"
+		}
+		return d.Kind
+	}
+	for _, d := range defs {
+		if k := kindOf(d); !seen[k] {
+			seen[k] = true
+			kinds = append(kinds, k)
+		}
+	}
+	sort.Strings(kinds)
+	type cand struct{ name, text string }
+	var cands []cand
+	variant := func(name string, rot int, flag func(d diDef) bool) {
+		cp := append([]diDef{}, defs...)
+		changed := false
+		for i := range cp {
+			if v := flag(cp[i]); v != cp[i].Distinct {
+				cp[i].Distinct = v
+				changed = true
+			}
+		}
+		if changed {
+			cands = append(cands, cand{name, renderDI(cp, nil, rot%len(defs))})
+		}
+	}
+	for i, k := range kinds {
+		k := k
+		variant(k+"@distinct#", i, func(d diDef) bool { return d.Distinct || kindOf(d) == k })
+		variant(k+"@uniqued#", i+3, func(d diDef) bool { return d.Distinct && kindOf(d) != k })
+	}
+	variant("all-kinds@distinct#", 2, func(d diDef) bool { return true })
+	variant("all-kinds@uniqued#", 9, func(d diDef) bool { return false })
+	// every kind distinct except those LLVM refuses alone
+	ok := make([]bool, len(cands))
+	llvmoracle.Parallel(len(cands), func(i int) { ok[i], _ = llvmoracle.Accepts(cands[i].text) })
+	refused := map[string]bool{}
+	rejected = []string{}
+	for i, c := range cands {
+		if !ok[i] {
+			rejected = append(rejected, strings.TrimSuffix(c.name, "#"))
+			if strings.HasSuffix(c.name, "@distinct#") {
+				refused[strings.TrimSuffix(c.name, "@distinct#")] = true
+			}
+			continue
+		}
+		rows = append(rows, &parseRow{Src: "text", Want: wantFromText(c.text), text: c.text, name: c.name})
+	}
+	if !ok[len(cands)-2] {
+		cp := append([]diDef{}, defs...)
+		for i := range cp {
+			cp[i].Distinct = cp[i].Distinct || !refused[kindOf(cp[i])]
+		}
+		text := renderDI(cp, nil, 2)
+		if a, _ := llvmoracle.Accepts(text); a {
+			rows = append(rows, &parseRow{Src: "text", Want: wantFromText(text), text: text, name: "all-kinds-llvm-allows@distinct#"})
+		} else {
+			rejected = append(rejected, "all-kinds-llvm-allows@distinct")
+		}
+	}
+	return rows, rejected
 }
 
 var reDefID = regexp.MustCompile(`(?m)^!(\d+) = `)
